@@ -40,7 +40,9 @@ EXPLANATION = (
     ' '
     'R-C02.13 normalize_value returns a bound parameter unchanged (bool -> backend literal excepted).'
     ' '
-    'R-C02.14 RenameField.simulate removes the old field entry before adding the renamed one (old and new name may coincide).')
+    'R-C02.14 RenameField.simulate removes the old field entry before adding the renamed one (old and new name may coincide).'
+    ' '
+    'R-C02.15 (= R-C18.9) generate_table_op_sql merges backend results with add(), never add_sql().')
 NOT_DECIDED = (
     'Equality of row contents before/after for all rows and sequences; '
     'behaviour of renames at the SQL level.')
@@ -749,7 +751,13 @@ def r14_rename_removes_before_it_adds(ctx):
                     'the signature', key='add-before-remove')
 
 
+def r15_table_op_results_are_merged(ctx):
+    from .c18 import r9_table_op_results_are_merged
+    r9_table_op_results_are_merged(ctx, rule_id='R-C02.15')
+
+
 def run(ctx):
+    r15_table_op_results_are_merged(ctx)
     r14_rename_removes_before_it_adds(ctx)
     r13_parameters_bound_unchanged(ctx)
     r12_embed_only_for_callables(ctx)
